@@ -3,7 +3,8 @@ from . import common
 from .common import wint
 from .x_arith import mk, fmt_of, modes_of, mk_hist
 
-ROUTES = ['resize', 'resize-dtype', 'resize-view', 'like=', 'like()', 'ctor', 'ctor-dtype', 'call', 'set_val', 'equal', 'setitem-elem', 'setitem-slice']
+ROUTES = ['resize', 'resize-dtype', 'resize-view', 'like=', 'like()', 'ctor', 'ctor-dtype', 'call', 'set_val', 'equal', 'setitem-elem', 'setitem-slice',
+          'resize-nint-w', 'resize-nint-f', 'resize-changed', 'like=kw']
 
 
 def dtype_str(t):
@@ -58,12 +59,25 @@ def observe_conv(fx, np, props, ts, td, codes, route, smodes, dmodes, shape=None
             dst = src
             src_after = common.codes_of(parent)
             sshape = [len(clist)]
-        elif route in ('resize', 'resize-dtype'):
+        elif route in ('resize', 'resize-dtype', 'resize-nint-w', 'resize-nint-f', 'resize-changed'):
             # the object converts itself: its own modes govern
             src = mk(fx, np, ts, codes, shape, rounding=dmodes[0], overflow=dmodes[1])
             keep = mk(fx, np, ts, codes, shape)
+            ni = td[1] - td[2] - int(bool(td[0]))
+            if route.startswith('resize-nint') and ni < 0:
+                return None
             if route == 'resize':
                 src.resize(bool(td[0]), td[1], td[2])
+            elif route == 'resize-nint-w':          # sizes spelled with the integer length
+                src.resize(signed=bool(td[0]), n_word=td[1], n_int=ni)
+            elif route == 'resize-nint-f':
+                src.resize(signed=bool(td[0]), n_frac=td[2], n_int=ni)
+            elif route == 'resize-changed':         # only what changes is passed
+                kwr = {}
+                if bool(td[0]) != bool(ts[0]): kwr['signed'] = bool(td[0])
+                if td[1] != ts[1]: kwr['n_word'] = td[1]
+                if td[2] != ts[2]: kwr['n_frac'] = td[2]
+                src.resize(**kwr)
             else:
                 src.resize(dtype=dtype_str(td))
             dst = src
@@ -76,6 +90,13 @@ def observe_conv(fx, np, props, ts, td, codes, route, smodes, dmodes, shape=None
             if route == 'like=':
                 tmpl = Fxp(None, bool(td[0]), td[1], td[2], **kw)
                 dst = Fxp(src, like=tmpl)
+            elif route == 'like=kw':               # a template of ANOTHER format, overridden by explicit sizes
+                tmpl = Fxp(None, not bool(td[0]), td[1] + 3, td[2] + 1, **kw)
+                ni = td[1] - td[2] - int(bool(td[0]))
+                if ni >= 0 and len(clist) % 2:
+                    dst = Fxp(src, like=tmpl, signed=bool(td[0]), n_int=ni, n_frac=td[2])
+                else:
+                    dst = Fxp(src, like=tmpl, signed=bool(td[0]), n_word=td[1], n_frac=td[2])
             elif route == 'like()':
                 tmpl = Fxp(None, bool(td[0]), td[1], td[2], **kw)
                 dst = src.like(tmpl)
